@@ -296,6 +296,21 @@ func (ck *checker) cyclic(v starlark.Value) (text string, probs []problem) {
 	if s := v.String(); len(s) > 1<<16 {
 		probs = append(probs, problem{"cyclic-String-huge", fmt.Sprintf("%d bytes", len(s))})
 	}
+	// The cycle was made while the value was mutable; most values a program
+	// prints are frozen (globals of a loaded module): the same text, again finite.
+	v.Freeze()
+	for _, fn := range []struct {
+		name string
+		f    starlark.Value
+	}{{"repr", ck.repr}, {"str", ck.str}} {
+		s, err := ck.call1(fn.f, v)
+		switch {
+		case err != nil:
+			probs = append(probs, problem{"cyclic-frozen-" + fn.name + "-fails", err.Error()})
+		case s != text:
+			probs = append(probs, problem{"cyclic-frozen-" + fn.name + "-differs", fmt.Sprintf("%s of the frozen value is %s, of the mutable value %s", fn.name, show(s), show(text))})
+		}
+	}
 	return text, probs
 }
 
@@ -892,6 +907,13 @@ func checkCase(ck *checker, vc *vcase, cyc bool, st *fw.Stats, co *collector) {
 		return
 	}
 	r, probs := ck.roundTrip(v)
+	if vc.Kind == "container" && len(probs) == 0 {
+		// the frozen value prints the same
+		v.Freeze()
+		if r2, err := ck.call1(ck.repr, v); err != nil || r2 != r {
+			probs = append(probs, problem{"frozen-repr-differs", fmt.Sprintf("repr of the frozen value is %s (err %v), of the mutable value %s", show(r2), err, show(r))})
+		}
+	}
 	form := reprForm(vc.Kind, r)
 	st.Outcome(form)
 	if form != "string:plain" && form != "bytes:plain" {
@@ -1063,7 +1085,7 @@ func init() {
 		Rule: "exhaustive sets: None, booleans, an int boundary pool (0, +-1, +-(2^k-1,2^k,2^k+1) for k up to 1000, +-(10^k-1,10^k,10^k+1)); floats: every finite biased exponent 1..2046 x 24 mantissa patterns x sign, subnormals (every single-bit mantissa and the patterns), +-0.0, 17-digit decimal cases; " +
 			"bytes: all 256 single bytes and all 65536 pairs; strings: every Unicode scalar value alone and between two ASCII letters (2 x 1,112,064), all singles/pairs over 64 class representatives (controls, quotes, backslash, escape letters, DEL, C1, NBSP, soft hyphen, combining, ZWJ, U+2028/9, bidi, BOM, noncharacters, U+FFFD, private use, astral); " +
 			"containers: every ordered tree of <=4 container nodes x {list,tuple,dict}^nodes x every subset of nodes carrying a scalar leaf (so 1-tuples and empty containers occur), tuple-as-dict-key variants, a shared (twice referenced) child, chains to depth 6; cyclic: every such tree with one back reference from any node to itself or an enclosing list/dict. " +
-			"Each value: repr() by the real builtin, parsed and evaluated by the real front end/interpreter, result Equal and same Type() (floats: same bits); strings: str(s)==s; strings/bytes: scanner-unquote(Quote(s,b)) == (s,b); cyclic: str/repr return a string (stack bounded to 64 MB, death attributed by the frame). " +
+			"Each value: repr() by the real builtin, parsed and evaluated by the real front end/interpreter, result Equal and same Type() (floats: same bits); strings: str(s)==s; strings/bytes: scanner-unquote(Quote(s,b)) == (s,b); cyclic: str/repr return a string (stack bounded to 64 MB, death attributed by the frame), and return the same string after the value has been frozen; containers: repr is the same after Freeze. " +
 			"non-trivial = values whose repr is not a plain printable-ASCII literal",
 		Run: run, Worker: worker, Replay: replay,
 		Assumptions: []string{
